@@ -30,6 +30,8 @@ from glue.core.visual import VisualAttributes  # noqa: E402
 from glue.core.message import DataCollectionAddMessage, DataCollectionDeleteMessage  # noqa: E402
 from glue.core.registry import Registry  # noqa: E402
 from glue.core.state import GlueSerializer, GlueUnSerializer  # noqa: E402
+from glue.core.command import CommandStack, AddData, RemoveData  # noqa: E402
+from glue.core.session import Session  # noqa: E402
 from glue.config import settings  # noqa: E402
 
 USER_COLORS = ['#010101', '#020202', '#030303', '#040404', '#050505', '#060606']
@@ -52,6 +54,12 @@ class World:
         self.dc = DataCollection()
         self.keep.extend(self.data)
         self.keep.append(self.dc)
+        self._new_stack()
+
+    def _new_stack(self):
+        self.stack = CommandStack()
+        self.stack.session = Session(data_collection=self.dc, command_stack=self.stack)
+        self.keep.append(self.stack)
 
     # ---- operations -------------------------------------------------------------------------
     def apply(self, op):
@@ -101,6 +109,15 @@ class World:
                 dc['d%i' % op[1]] = self.data[op[2]]
         elif k == 'rst':
             self.restore()
+        elif k in ('ca', 'cr'):
+            if op[1] < nd:
+                cls = AddData if k == 'ca' else RemoveData
+                self.stack.do(cls(data=self.data[op[1]]))
+        elif k in ('undo', 'redo'):
+            try:
+                getattr(self.stack, k)()
+            except IndexError:
+                pass  # empty stack: documented IndexError, nothing happens
         else:
             raise ValueError(op)
 
@@ -141,6 +158,7 @@ class World:
                 self.did[id(nd)] = i
                 self.keep.append(nd)
         self.dc = new
+        self._new_stack()  # the restored session has its own, empty command stack
 
     # ---- observation ------------------------------------------------------------------------
     def _name(self, s):
@@ -236,7 +254,14 @@ class World:
                 ['ds'] + ds, ['gs'] + gs,
                 ['gv'] + [self._vals(g) for g in self.groups],
                 ['lb'] + lb,
-                ['rd'] + rd]
+                ['rd'] + rd,
+                ['cs', self._cmds(self.stack._command_stack), self._cmds(self.stack._undo_stack)]]
+
+    def _cmds(self, cmds):
+        out = []
+        for c in reversed(cmds):  # most recent first
+            out.append(['a' if type(c) is AddData else 'r' if type(c) is RemoveData else 'x', self._d(c.data)])
+        return out
 
 
 # ---------------------------------------------------------------------------------------------
@@ -251,7 +276,7 @@ def _canonical(ops):
     mentions must come in the order 0, 1, 2."""
     nxt = 0
     for op in ops:
-        if op[0] in ('app', 'rem'):
+        if op[0] in ('app', 'rem', 'ca', 'cr'):
             args = [op[1]]
         elif op[0] in ('ext', 'mrg'):
             args = op[1:]
@@ -287,7 +312,11 @@ CORE = ([['app', d] for d in range(ND)] + [['rem', d] for d in range(ND)] +
 
 EXT = ([['ext', 0, 1], ['ext', 1, 0, 2], ['mrg', 0, 1], ['mrg', 1, 0], ['mrg', 0, 3], ['mrg', 0, 0],
         ['seti', 0, 0], ['seti', 0, 1], ['seti', 1, 0], ['seti', 5, 1], ['rst'],
-        ['ss', 0, 1], ['sl', 0, 2], ['sy', 0, 2], ['sy', 1, 3], ['ss', 1, 4]])
+        ['ss', 0, 1], ['sl', 0, 2], ['sy', 0, 2], ['sy', 1, 3], ['ss', 1, 4],
+        ['ca', 0], ['cr', 0], ['cr', 1], ['undo'], ['redo']])
+
+# the AddData / RemoveData commands through a CommandStack, with undo and redo
+CMD = [['ca', 0], ['ca', 1], ['cr', 0], ['cr', 1], ['undo'], ['redo'], ['ng'], ['rg', 0], ['app', 1], ['rem', 0]]
 
 
 def sequences(alphabet, length):
@@ -321,8 +350,12 @@ def random_op(rng, nd, made):
         return ['mrg'] + [d() for _ in range(rng.randint(2, 3))]
     if r < 0.80:
         return ['seti', rng.randrange(nd + 1), d()]
-    if r < 0.86:
+    if r < 0.84:
         return ['rst']
+    if r < 0.88:
+        return [rng.choice(['ca', 'cr']), d()]
+    if r < 0.92:
+        return [rng.choice(['undo', 'undo', 'redo'])]
     if made:
         return [rng.choice(['ss', 'sl', 'sy']), rng.randrange(made), rng.randrange(6)]
     return ['app', d()]
@@ -346,6 +379,7 @@ class Seq(Family):
     name = "seq"
     exhaustive = True
     batch = 400
+    budget_share = 3.0
     case_timeout = 30.0
 
     def __init__(self):
@@ -368,12 +402,6 @@ class Seq(Family):
                     [['app', 0], ['ng'], ['seti', 0, 0], ['seti', 0, 0]],
                     [['ext', 0, 1], ['ng'], ['mrg', 0, 1], ['app', 0], ['clr'], ['app', 3]]):
             yield [ND, nc, ops]
-        # exhaustive: every sequence of exactly L core ops (all shorter ones are its prefixes and
-        # are checked through the per-step snapshots), modulo dataset symmetry
-        L = 5 if tier == "quick" else 7
-        for ops in sequences(CORE, L):
-            if _canonical(ops):
-                yield [ND, nc, ops]
         # exhaustive: one extended op (extend / merge / setitem / restore / setters) at any position
         # of a core sequence of length L-1 (quick: L-2 around it)
         Lx = 3 if tier == "quick" else 4
@@ -384,6 +412,11 @@ class Seq(Family):
                         ops = pre + [list(x)] + post
                         if _valid_refs(ops) and _canonical(ops):
                             yield [ND, nc, ops]
+        # exhaustive: command / undo / redo words mixed with group creation and direct append / remove
+        Lc = 4 if tier == "quick" else 5
+        for ops in sequences(CMD, Lc):
+            if _canonical(ops) and any(o[0] in ('undo', 'redo') for o in ops):
+                yield [ND, nc, ops]
         # two extended ops in a row after a short core prefix
         for pre in sequences(CORE, 2):
             for x in EXT:
@@ -393,14 +426,24 @@ class Seq(Family):
                         yield [ND, nc, ops]
 
 
+        # exhaustive: every sequence of exactly L core ops (all shorter ones are its prefixes and
+        # are checked through the per-step snapshots), modulo dataset symmetry.  Last, because it is
+        # the largest block: a budget cut-off under machine load drops its tail only.
+        L = 5 if tier == "quick" else 7
+        for ops in sequences(CORE, L):
+            if _canonical(ops):
+                yield [ND, nc, ops]
+
+
 class SeqRandom(Seq):
     name = "seqr"
     exhaustive = False
     batch = 100
+    budget_share = 1.0
 
     def cases(self, tier, rng):
         nc = self.colors
-        n_short, n_long = (9000, 900) if tier == "quick" else (150000, 15000)
+        n_short, n_long = (6000, 500) if tier == "quick" else (150000, 15000)
         for _ in range(n_short):
             yield [ND, nc, random_seq(rng, rng.randint(3, 10))]
         for _ in range(n_long):
@@ -459,7 +502,7 @@ def _features(ops):
         if k == 'clr':
             removed |= in_dc
             in_dc = set()
-        if k in ('rst', 'mrg', 'seti', 'rg'):
+        if k in ('rst', 'mrg', 'seti', 'rg', 'undo', 'redo'):
             f.add(k)
     return f
 
@@ -468,7 +511,7 @@ for _cls in (Seq, SeqRandom):
     _cls.run_impl = lambda self, case: _run(case)
     _cls.shrink = lambda self, case: _shrink(case)
     _cls.line = lambda self, case, pyout: __import__("harness.core", fromlist=["sx"]).sx(["seq", case, pyout])
-    _cls.nontrivial = lambda self, case, po: any(op[0] == 'ng' for op in case[2]) and any(op[0] in ('app', 'ext', 'seti', 'mrg') for op in case[2])
+    _cls.nontrivial = lambda self, case, po: any(op[0] == 'ng' for op in case[2]) and any(op[0] in ('app', 'ext', 'seti', 'mrg', 'ca') for op in case[2])
     _cls.signature = lambda self, case, po, res: {"construct": "+".join(sorted(_features(case[2]))) or "plain"}
 
 
@@ -482,5 +525,5 @@ PROP = Property(
                   "GlueSerializer / GlueUnSerializer are exercised, not modelled: `restore` models their effect on the collection bookkeeping only"],
     assumptions=["datasets enter the collection without subsets of their own (clients create subsets only through new_subset_group, as the module docstring of subset_group.py demands)",
                  "after a session restore the restored objects stand for the saved ones; objects of the old session that were in the old collection are out of scope"],
-    rule="exhaustive: all sequences of exactly L core ops (append/remove x3 datasets, new group (<=2), remove group, clear; L=5 quick, 6 thorough) modulo dataset symmetry, every prefix checked through per-step snapshots; one extended op (extend/merge/setitem/restore/setters) at every position of every core sequence of length 3 (quick) / 4 (thorough); all pairs of extended ops after 2 core ops; seeded random sequences up to length 60 with up to 5 groups and merged datasets. non-trivial = creates a group and adds a dataset",
+    rule="exhaustive: all sequences of exactly L core ops (append/remove x3 datasets, new group (<=2), remove group, clear; L=5 quick, 6 thorough) modulo dataset symmetry, every prefix checked through per-step snapshots; one extended op (extend/merge/setitem/restore/setters/AddData-RemoveData commands/undo/redo) at every position of every core sequence of length 3 (quick) / 4 (thorough); all command/undo/redo words of length 4/5; all pairs of extended ops after 2 core ops; seeded random sequences up to length 60 with up to 5 groups and merged datasets. non-trivial = creates a group and adds a dataset",
 )
